@@ -282,7 +282,7 @@ theorem verify_clean {l : List Char} (h : Clean l) : verifyChecksumL l = .ok l :
   simp
 
 /-- pass 1 on a printed tree -/
-theorem parsePreCheck_print (t : Tree) (hw : t.WF) (hd : t.depth ≤ MAX_RECURSION_DEPTH) :
+theorem parsePreCheck_print (t : Tree) (hw : t.WF) (hd : t.depth ≤ MAX_RECURSION_DEPTH + 1) :
     parsePreCheck t.print = .ok (t.print, t.depth, t.size) := by
   unfold parsePreCheck
   rw [verify_clean (print_clean t hw)]
@@ -293,7 +293,7 @@ theorem parsePreCheck_print (t : Tree) (hw : t.WF) (hd : t.depth ≤ MAX_RECURSI
   rw [h]
   have hs := size_pos t
   simp only [preLoop, adv, pure, Except.pure, List.length_nil, Nat.zero_add]
-  have : ¬ (max 0 t.depth > MAX_RECURSION_DEPTH) := by omega
+  have : ¬ (max 0 t.depth > MAX_RECURSION_DEPTH + 1) := by omega
   simp only [this, if_false]
   have e1 : max 0 t.depth = t.depth := by omega
   have e2 : 1 + (t.size - 1) = t.size := by omega
